@@ -141,7 +141,8 @@ func decCands(m *yang.YangType) []bcand {
 	if fd < 1 || fd > 18 {
 		fd = 2
 	}
-	pool := []string{"1.5", "-0.25", "100", "0", "12.125", "-7", "0.5", "3"}
+	// magnitudes on both sides of the range in which %g-style formatting switches to an exponent
+	pool := []string{"1.5", "-0.25", "100", "0", "12.125", "-7", "0.5", "3", "1000000", "1234567.5", "-25000000", "0.00001", "0.000025", "123456789012"}
 	for _, p := range m.Range {
 		pool = append(pool, plainDecimal(p.Min), plainDecimal(p.Max))
 	}
